@@ -192,6 +192,52 @@ def normalize_with_snapshots(program, want):
     return out, snaps
 
 
+def eval_poly_dump(d, env):
+    tot = Fraction(0)
+    for co, mon in d:
+        t = Fraction(co)
+        for x, k in mon:
+            t *= Fraction(env[x]) ** k
+        tot += t
+    return tot
+
+
+def eval_cond_dump(c, env):
+    """independent evaluation of a dumped condition (not Polar's Condition.evaluate)"""
+    k = c[0]
+    if k == "true":
+        return True
+    if k == "false":
+        return False
+    if k == "atom":
+        a, b = eval_poly_dump(c[1], env), eval_poly_dump(c[3], env)
+        return {"==": a == b, "<=": a <= b, ">=": a >= b, "<": a < b, ">": a > b}[c[2]]
+    if k == "not":
+        return not eval_cond_dump(c[1], env)
+    if k == "and":
+        return eval_cond_dump(c[1], env) and eval_cond_dump(c[2], env)
+    if k == "or":
+        return eval_cond_dump(c[1], env) or eval_cond_dump(c[2], env)
+    raise Unsupported(k)
+
+
+def abstraction_points(program, abs_support):
+    """values of the probability symbols introduced by the Bernoulli abstraction of conditions
+    over a draw with the given finite support {var: [[weight, value], ...]}"""
+    out = {}
+    for prob, cond in program.abstracted_const_store.items():
+        d = dump_cond(cond)
+        vs = sorted(str(x) for x in cond.get_free_symbols())
+        if len(vs) != 1 or vs[0] not in abs_support:
+            raise Unsupported(f"abstraction over {vs}")
+        tot = Fraction(0)
+        for w, v in abs_support[vs[0]]:
+            if eval_cond_dump(d, {vs[0]: Fraction(v)}):
+                tot += Fraction(w)
+        out[str(prob)] = f"{tot.numerator}/{tot.denominator}"
+    return out
+
+
 def task_analyze(task):
     """task: text, goals [monomial strings], opts, snapshots (bool), points [{sym: val}], nvals,
     solve (bool), all_monomials (bool: closed forms for every monomial of each system)"""
@@ -228,6 +274,13 @@ def task_analyze(task):
     res["finite_variables"] = sorted(str(v) for v in program.finite_variables)
     res["var_to_index"] = {str(k): v for k, v in program.var_to_index.items()}
     res["original_loop_guard"] = dump_cond(program.original_loop_guard) if program.original_loop_guard is not None else None
+    res["abstractions"] = [[str(k), str(v)] for k, v in program.abstracted_const_store.items()]
+    abs_pt = {}
+    if program.abstracted_const_store:
+        try:
+            abs_pt = abstraction_points(program, task.get("abs_support", {}))
+        except Unsupported as u:
+            res["abstraction_unsupported"] = str(u)
     res["goals"] = []
     n = sp.Symbol("n", integer=True)
     rb = RecBuilder(program)
@@ -277,6 +330,8 @@ def task_analyze(task):
         free.discard(n)
         points = task.get("points") or [{}]
         for pt in points:
+            pt = dict(pt)
+            pt.update(abs_pt)
             subs = {sp.Symbol(k): sp.Rational(v) for k, v in pt.items()}
             missing = [str(x) for x in free if x not in subs]
             inst = {"point": pt}
